@@ -557,6 +557,9 @@ def register_pretty(type=None, predicate=None):
                 # class, we can call register_pretty(cls)(fn)
                 _DEFERRED_DISPATCH_BY_NAME[type] = fn
             else:
+                # A later registration replaces an earlier one, also when
+                # the earlier one was made by name and is still deferred.
+                _DEFERRED_DISPATCH_BY_NAME.pop(get_deferred_key(type), None)
                 pretty_dispatch.register(type, partial(_run_pretty, fn))
         else:
             assert callable(predicate)
@@ -577,13 +580,13 @@ def is_registered(
             'register_deferred may not be True when check_deferred is False'
         )
 
-    if type in pretty_dispatch.registry:
+    if (
+        type in pretty_dispatch.registry and
+        get_deferred_key(type) not in _DEFERRED_DISPATCH_BY_NAME
+    ):
         return True
 
     with _DEFERRED_DISPATCH_LOCK:
-        if type in pretty_dispatch.registry:
-            return True
-
         if check_deferred:
             # Check deferred printers for the type exactly.
             deferred_key = get_deferred_key(type)
@@ -594,6 +597,9 @@ def is_registered(
                     )
                     register_pretty(type)(deferred_dispatch)
                 return True
+
+        if type in pretty_dispatch.registry:
+            return True
 
         if not check_superclasses:
             return False
